@@ -92,6 +92,21 @@ def check_transform(case, ctx):
         target = objs[0]
     start = [a for a, b in Rs[0].domain()]
     p0 = [float(x) for x in Rs[0].point(start)[0]]
+    # the sampled grid is an evaluation entry point too: 3 samples per direction
+    import itertools
+    for o in objs:
+        o.delta = 1.0 / 3
+    if case["container"]:
+        target.delta = 1.0 / 3
+    grid_exact = []
+    for R in Rs:
+        dom = R.domain()
+        pts = []
+        for idx in itertools.product(range(3), repeat=R.pdim):
+            us = [dom[k][0] + (dom[k][1] - dom[k][0]) * idx[k] / 2 for k in range(R.pdim)]
+            p, sc = R.point(us)
+            pts.append(([float(x) for x in p], float(sc)))
+        grid_exact.append(pts)
     exact_pts = [[([float(x) for x in R.point(us)[0]], float(R.point(us)[1])) for us in lat] for R, lat in zip(Rs, lats)]
     # tracked targets: [object, list of maps]
     tracked = [[target, []]]
@@ -104,12 +119,16 @@ def check_transform(case, ctx):
         if st_["op"] == "read":
             for e in elems:
                 _ = e.ctrlpts
+                _ = e.evalpts
                 if e.rational:
                     _ = e.weights, e.ctrlptsw
+            if case["container"]:
+                _ = tgt.evalpts
             did.append("read")
             continue
         before = [build.snapshot(e) for e in elems]
         m = None
+        fresh_copy = None
         if st_["op"] == "translate":
             m = ("translate", list(st_["vec"]))
         elif st_["op"] == "scale":
@@ -129,6 +148,7 @@ def check_transform(case, ctx):
                       "%s with inplace=False returned (part of) its input" % st_["op"])
             ctx.check([build.snapshot(e) for e in elems] == before, "input-modified", "%s with inplace=False modified its input" % st_["op"])
             tracked.append([res, list(maps) + [m]])
+            fresh_copy = res
         # every tracked target still is the recorded map of the original
         for ti, (tg, mp) in enumerate(tracked):
             els = list(tg) if case["container"] else [tg]
@@ -156,6 +176,38 @@ def check_transform(case, ctx):
                             break
                     if fail:
                         break
+                    # sampled grid of the element
+                    ev = [list(q) for q in e.evalpts]
+                    gex = grid_exact[els.index(e)]
+                    if len(ev) != len(gex):
+                        fail = "after %r target %d: evalpts has %d points, expected %d" % (did, ti, len(ev), len(gex))
+                        break
+                    for g, (p, sc) in zip(ev, gex):
+                        want = _map_point(p, mp, sense)
+                        mag = 1.0 + sc + max(abs(x) for x in want) + max(abs(x) for x in p0)
+                        for mm in mp:
+                            if mm[0] == "scale":
+                                mag *= max(1.0, abs(mm[1]))
+                            elif mm[0] == "translate":
+                                mag += max(abs(x) for x in mm[1])
+                        if any(abs(a - b) > 1e-9 * mag for a, b in zip(g, want)):
+                            fail = "after %r target %d (maps %r): sampled point %r, expected %r (evalpts does not follow the transform)" % (did, ti, [(x[0], x[1]) for x in mp], g, want)
+                            break
+                    if fail:
+                        break
+                if not fail and case["container"] and tg is fresh_copy:
+                    # a container just returned by a non-inplace transform: its aggregated evalpts are the mapped grids
+                    agg = [list(q) for q in tg.evalpts]
+                    flat = [(p, sc) for gex in grid_exact for (p, sc) in gex]
+                    if len(agg) != len(flat):
+                        fail = "after %r: the returned container's evalpts has %d points, expected %d" % (did, len(agg), len(flat))
+                    else:
+                        for g, (p, sc) in zip(agg, flat):
+                            want = _map_point(p, mp, sense)
+                            mag = (1.0 + sc + max(abs(x) for x in want) + max(abs(x) for x in p0)) * 64.0
+                            if any(abs(a - b) > 1e-9 * mag for a, b in zip(g, want)):
+                                fail = "after %r: evalpts of the container returned by %s is %r, expected %r" % (did, did[-1], g, want)
+                                break
                 if not fail:
                     okany = True
                     break
